@@ -28,7 +28,7 @@ def cfgstr(mode, bu=ALLBU, props=0):
     return "%s%sp%d" % (mode, bu, props)
 
 
-def mesh_job(prop, kernel, seed, cfg, alpha, depth, alpha2=0, depth2=0, caps=None, bcfg="asan", deadline=400, known=()):
+def mesh_job(prop, kernel, seed, cfg, alpha, depth, alpha2=0, depth2=0, caps=None, bcfg="asan", deadline=400, known=(), warm=False):
     # depth2 is the TOTAL depth up to which the second alphabet is applied (levels depth+1 .. depth2): a second phase that can never
     # run is a configuration error (it once made the C16 tuple job vacuous)
     assert alpha2 == 0 or depth2 > depth, (prop, seed, alpha2, depth, depth2)
@@ -40,6 +40,9 @@ def mesh_job(prop, kernel, seed, cfg, alpha, depth, alpha2=0, depth2=0, caps=Non
         args += ["--caps", caps]
     if known:
         args += ["--known", ",".join(known)]
+    if warm:
+        args += ["--warm", "1"]
+        jid += "-warm"
     return {"id": jid, "cfg": bcfg, "bin": "meshmc_" + kernel, "args": args, "replay_args": base + (["--caps", caps] if caps else []),
             "timeout": deadline + 120}
 
@@ -55,7 +58,7 @@ def seed_class(seed):
 
 
 def tiered(prop, tier, known, plan, kernels=("poly", "tet", "hex"), modes=MODES, busets=(ALLBU,), props=0, bcfg="fast",
-           seeds=None, asan_plan=None, asan_cfgs=(("d1f1", ALLBU), ("d0f0", ALLBU)), heavy=()):
+           seeds=None, asan_plan=None, asan_cfgs=(("d1f1", ALLBU), ("d0f0", ALLBU)), heavy=(), warm=False):
     """plan[tier][class] = (alpha, depth, alpha2, depth2) or None; seeds listed in `heavy` keep the quick bounds in the thorough tier
     (measured: one more level does not complete within the per-job deadline for them)"""
     js = []
@@ -70,7 +73,7 @@ def tiered(prop, tier, known, plan, kernels=("poly", "tet", "hex"), modes=MODES,
             if pl:
                 for mode in modes:
                     for bu in busets:
-                        js.append(mesh_job(prop, kernel, seed, cfgstr(mode, bu, props), pl[0], pl[1], pl[2], pl[3], bcfg=bcfg, deadline=dl, known=known))
+                        js.append(mesh_job(prop, kernel, seed, cfgstr(mode, bu, props), pl[0], pl[1], pl[2], pl[3], bcfg=bcfg, deadline=dl, known=known, warm=warm))
             if asan_plan and asan_plan[ptier].get(cls):
                 pl = asan_plan[ptier][cls]
                 for mode, bu in asan_cfgs:
@@ -90,8 +93,17 @@ ASAN_PLAN = {
 }
 
 
+# "warm" jobs: the query battery runs on the same object before and after every operation (query -> mutate -> query), so that state
+# left behind by a const query (a cache that is not invalidated, a scratch buffer) becomes visible; the plain jobs execute every
+# transition on a fresh replay and would never see it
+WARM_PLAN = {"quick": {"small": (A_FULL, 2, 0, 0), "medium": (A_FULL, 1, 0, 0), "large": (A_R2, 1, 0, 0)},
+             "thorough": {"small": (A_FULL, 2, 0, 0), "medium": (A_FULL, 1, A_R2, 2), "large": (A_FULL, 1, 0, 0)}}
+
+
 def jobs_state(prop, heavy=("S2",), plan_b=True):
-    return lambda tier, known: tiered(prop, tier, known, STATE_PLAN, asan_plan=ASAN_PLAN, heavy=heavy) + (tiered(prop, tier, known, STATE_PLAN_B, modes=["d1f1", "d0f0"], seeds=[x for x in SMALL + MEDIUM if x not in heavy]) if plan_b else [])
+    return lambda tier, known: (tiered(prop, tier, known, STATE_PLAN, asan_plan=ASAN_PLAN, heavy=heavy)
+                                + (tiered(prop, tier, known, STATE_PLAN_B, modes=["d1f1", "d0f0"], seeds=[x for x in SMALL + MEDIUM if x not in heavy]) if plan_b else [])
+                                + tiered(prop, tier, known, WARM_PLAN, modes=["d1f1", "d0f0"], warm=True))
 
 
 TRANS_PLAN = {
@@ -342,7 +354,7 @@ def jobs_c20(tier, known):
             for t in trip:
                 js.append(sj(kernel, 3, 1, t, dl))
         # the same micro-queries on the "big" fixture (vertex 0 has 8 incident cells: size-dependent code paths), <= 1 preemption
-        bigq = (0, 1, 2, 8, 9, 10, 13, 14)
+        bigq = (0, 1, 2, 3, 4, 8, 9, 10, 13, 14)
         for a in bigq:
             for b in bigq:
                 if tier == "thorough" or a == b or a == 0 or b == 0:
